@@ -881,3 +881,134 @@ Proof.
   - eexists _, _, _. split; [vm_compute; reflexivity|]. vm_compute. repeat split; reflexivity.
   - vm_compute. reflexivity.
 Qed.
+
+(* ---- part 4: histories of proxy operations --------------------------------------------------
+   the proxy list a message carries is computed from the session's CURRENT proxy record; the record
+   is state, changed by NewProxy / Replace / Close / the dropping of an inactive record *)
+Fixpoint wf_pop (o : pop) : bool :=
+  match o with
+  | PAttach n a p => wf_bytes n && wf_bytes a && wf_bytes p
+  | PReplace a p => wf_bytes a && wf_bytes p
+  | PTask o' => wf_pop o'
+  | _ => true
+  end.
+
+Lemma set_proxy_same s : set_proxy s (s_proxy s) = s.
+Proof. destruct s. reflexivity. Qed.
+Lemma set_proxy_twice s p q : set_proxy (set_proxy s p) q = set_proxy s q.
+Proof. reflexivity. Qed.
+Lemma pwrite_frame s k : pwrite s k = set_proxy s (s_proxy (pwrite s k)).
+Proof.
+  destruct s as [i d j sl kl w ks c [px|]]; unfold pwrite, set_proxy;
+    cbn [s_id s_dev s_jitter s_sleep s_kill s_work s_keys s_client s_proxy];
+    destruct (c && writes_proxy_list k); try reflexivity.
+  destruct (p_active px); reflexivity.
+Qed.
+(* an operation changes nothing but the proxy record *)
+Lemma run_pop_frame o : forall s, run_pop s o = set_proxy s (s_proxy (run_pop s o)).
+Proof.
+  induction o as [n a p|a p| |k|o IH]; intros s.
+  - cbn [run_pop]. destruct (pop_ok s (PAttach n a p)); [reflexivity | symmetry; apply set_proxy_same].
+  - destruct s as [i d j sl kl w ks c [px|]]; cbn [run_pop s_proxy]; [|reflexivity].
+    destruct (p_active px); reflexivity.
+  - destruct s as [i d j sl kl w ks c [px|]]; reflexivity.
+  - apply pwrite_frame.
+  - cbn [run_pop]. destruct (pop_ok s o); [|symmetry; apply set_proxy_same].
+    rewrite pwrite_frame. rewrite (IH s) at 1. reflexivity.
+Qed.
+
+Lemma wf_pwrite s k : wf_proxy_opt (s_proxy s) = true -> wf_proxy_opt (s_proxy (pwrite s k)) = true.
+Proof.
+  intros H. unfold pwrite. destruct (s_client s && writes_proxy_list k); [|exact H].
+  destruct (s_proxy s) as [px|] eqn:E; [|rewrite E; reflexivity].
+  destruct (p_active px); [rewrite E; exact H | reflexivity].
+Qed.
+Lemma wf_run_pop_proxy o : forall s,
+  wf_pop o = true -> wf_proxy_opt (s_proxy s) = true -> wf_proxy_opt (s_proxy (run_pop s o)) = true.
+Proof.
+  induction o as [n a p|a p| |k|o IH]; intros s Ho H; cbn [run_pop wf_pop] in *.
+  - destruct (pop_ok s (PAttach n a p)); [|exact H]. cbn [set_proxy s_proxy wf_proxy_opt]. unfold wf_proxy. cbn [p_name p_addr p_prof]. exact Ho.
+  - destruct s as [i d j sl kl w ks c [px|]]; cbn [s_proxy wf_proxy_opt] in *; [|reflexivity].
+    destruct (p_active px); cbn [set_proxy s_proxy wf_proxy_opt]; [|exact H].
+    unfold wf_proxy in *. cbn [p_name p_addr p_prof]. apply andb_true_iff in H. destruct H as [H _].
+    apply andb_true_iff in H. destruct H as [H _]. rewrite H. exact Ho.
+  - destruct s as [i d j sl kl w ks c [px|]]; cbn [s_proxy set_proxy wf_proxy_opt] in *; [|reflexivity]. exact H.
+  - apply wf_pwrite. exact H.
+  - destruct (pop_ok s o); [|exact H]. apply wf_pwrite. apply IH; assumption.
+Qed.
+
+Lemma wf_set_proxy k s p : wf k s = true -> wf_proxy_opt p = true -> wf k (set_proxy s p) = true.
+Proof.
+  intros H Hp. unfold wf in *. unfold wf_settings in *. unfold set_proxy.
+  cbn [s_id s_dev s_jitter s_sleep s_kill s_work s_keys s_client s_proxy].
+  destruct (is_kind k); [|discriminate]. cbn [andb] in *.
+  destruct (k =? infoProxy).
+  { apply andb_true_iff in H. destruct H as [Hc _]. rewrite Hc, Hp. reflexivity. }
+  apply andb_true_iff in H. destruct H as [H Hkeys]. apply andb_true_iff in H. destruct H as [H Hprox].
+  rewrite H, Hkeys. cbn [andb]. destruct (carries_proxy k); [|reflexivity].
+  apply andb_true_iff in Hprox. destruct Hprox as [Hc _]. rewrite Hc, Hp. reflexivity.
+Qed.
+
+Lemma wf_run_pops h : forall k s, wf k s = true -> wf_proxy_opt (s_proxy s) = true -> forallb wf_pop h = true ->
+  wf k (run_pops s h) = true /\ wf_proxy_opt (s_proxy (run_pops s h)) = true.
+Proof.
+  induction h as [|o h IH]; intros k s Hw Hp Hh; [split; assumption|].
+  cbn [forallb] in Hh. apply andb_true_iff in Hh. destruct Hh as [Ho Hh].
+  unfold run_pops. cbn [fold_left]. apply IH; [|apply wf_run_pop_proxy; assumption | exact Hh].
+  rewrite run_pop_frame. apply wf_set_proxy; [exact Hw | apply wf_run_pop_proxy; assumption].
+Qed.
+
+(* after ANY history of proxy operations every kind is read back, by both readers over every split,
+   with exactly the CURRENT proxy record's name / bind address / profile bytes (carried_proxies of
+   the state the history leads to) *)
+Theorem proxy_history_roundtrip k s h r :
+  wf k s = true -> wf_proxy_opt (s_proxy s) = true -> forallb wf_pop h = true ->
+  reads_back (read_info flat_ops k r) (read_info stream_ops k r) (write_info k (run_pops s h))
+             (absorb k (run_pops s h) r, carried_proxies k (run_pops s h)).
+Proof. intros Hw Hp Hh. apply devinfo_roundtrip. apply (wf_run_pops h k s Hw Hp Hh). Qed.
+
+(* what the current record is after each operation *)
+Theorem proxies_after_attach f s n a p :
+  s_client s = true -> s_proxy s = None ->
+  proxies_of f (run_pop s (PAttach n a p)) = [mkPData n a (if f then p else [])] /\
+  proxies_of f (run_pop s (PTask (PAttach n a p))) = [mkPData n a (if f then p else [])].
+Proof.
+  intros Hc Hn. cbn [run_pop pop_ok]. rewrite Hc, Hn. cbn [andb]. split; [reflexivity|].
+  unfold pwrite. cbn [set_proxy s_client s_proxy]. rewrite Hc. reflexivity.
+Qed.
+(* Replace: the name stays, the address AND the profile are the new ones *)
+Theorem proxies_after_replace f s px a p :
+  s_proxy s = Some px -> p_active px = true ->
+  proxies_of f (run_pop s (PReplace a p)) = [mkPData (p_name px) a (if f then p else [])] /\
+  proxies_of f (run_pop s (PTask (PReplace a p))) = [mkPData (p_name px) a (if f then p else [])].
+Proof.
+  intros Hs Ha. cbn [run_pop pop_ok]. rewrite Hs, Ha. split; [reflexivity|].
+  unfold pwrite. cbn [set_proxy s_client s_proxy p_active]. destruct (s_client s && writes_proxy_list infoProxy); reflexivity.
+Qed.
+Theorem proxies_after_close f s :
+  proxies_of f (run_pop s PClose) = [] /\ proxies_of f (run_pop s (PTask PClose)) = [].
+Proof.
+  cbn [run_pop pop_ok]. destruct (s_proxy s) as [px|] eqn:E.
+  - split; [reflexivity|]. unfold pwrite. cbn [set_proxy s_client s_proxy p_active].
+    destruct (s_client s && writes_proxy_list infoProxy); reflexivity.
+  - unfold proxies_of. rewrite E. split; reflexivity.
+Qed.
+(* writing a message never changes what the messages carry *)
+Theorem proxies_after_write f s k : proxies_of f (run_pop s (PWrite k)) = proxies_of f s.
+Proof.
+  cbn [run_pop]. unfold pwrite. destruct (s_client s && writes_proxy_list k); [|reflexivity].
+  destruct (s_proxy s) as [px|] eqn:E; [|reflexivity]. destruct (p_active px) eqn:A; [reflexivity|].
+  unfold proxies_of. cbn [set_proxy s_proxy]. rewrite E, A. reflexivity.
+Qed.
+
+Definition ex_history : list pop :=
+  [PAttach [112;120] [49;50;55;46;48;46;48;46;49;58;48] [160;0;1;120];
+   PTask (PReplace [108;111;99;97;108;104;111;115;116;58;48] [160;0;2;121;122;208])].
+Lemma ex_history_ok :
+  let s0 := set_proxy ex_session None in
+  forallb wf_pop ex_history = true /\ wf infoHello s0 = true /\
+  carried_proxies infoHello (run_pops s0 ex_history) =
+    [mkPData [112;120] [108;111;99;97;108;104;111;115;116;58;48] [160;0;2;121;122;208]] /\
+  carried_proxies infoProxy (run_pops s0 ex_history) = [mkPData [112;120] [108;111;99;97;108;104;111;115;116;58;48] []] /\
+  carried_proxies infoHello (run_pops s0 (ex_history ++ [PTask PClose])) = [].
+Proof. vm_compute. repeat split; reflexivity. Qed.
